@@ -217,7 +217,7 @@ def _worker(args):
     shard, seed = args
     fn = _FN
     acc = Acc()
-    signal.signal(signal.SIGALRM, _on_alarm)
+    signal.signal(signal.SIGPROF, _on_alarm)
     t0 = time.time()
     try:
         fn(acc, shard)
@@ -229,18 +229,22 @@ def _worker(args):
             "watchdog: case did not return", acc.current, "termination", "timeout"
         )
     except BaseException as e:  # machinery error inside a shard: fail loudly
-        signal.setitimer(signal.ITIMER_REAL, 0)
+        signal.setitimer(signal.ITIMER_PROF, 0)
         return ("error", f"shard {shard!r}: {type(e).__name__}: {e}\n{traceback.format_exc()}")
     finally:
-        signal.setitimer(signal.ITIMER_REAL, 0)
+        signal.setitimer(signal.ITIMER_PROF, 0)
     acc.current = None
     return ("ok", acc)
 
 
 def guard(acc, case):
-    """Arm the per-case watchdog and remember the case being run."""
+    """
+    Arm the per-case watchdog and remember the case being run.  The timer counts the CPU time of this
+    process (ITIMER_PROF), not wall time: a worker that is merely starved by other load must not be
+    mistaken for a case that does not return, while a loop that never ends burns CPU and is caught.
+    """
     acc.current = case
-    signal.setitimer(signal.ITIMER_REAL, CASE_TIMEOUT_S)
+    signal.setitimer(signal.ITIMER_PROF, CASE_TIMEOUT_S)
 
 
 def guard_cheap(acc, case, _state=[0.0]):
@@ -249,7 +253,7 @@ def guard_cheap(acc, case, _state=[0.0]):
     now = time.monotonic()
     if now - _state[0] > 1.0:
         _state[0] = now
-        signal.setitimer(signal.ITIMER_REAL, CASE_TIMEOUT_S)
+        signal.setitimer(signal.ITIMER_PROF, CASE_TIMEOUT_S)
 
 
 def pmap(fn, shards, seed=0, nproc=None):
